@@ -126,6 +126,76 @@ def dark_roots(table):
     return [d for d in roots if not any(d != e and d[:len(e)] == e for e in roots)]
 
 
+RAW_REPORTS = {
+    "multiget": ('<?xml version="1.0"?><C:calendar-multiget xmlns:D="DAV:" xmlns:C="urn:ietf:params:xml:ns:caldav"><D:prop><D:getetag/>'
+                 '<C:calendar-data/></D:prop>%s</C:calendar-multiget>'),
+    "adr-multiget": ('<?xml version="1.0"?><CR:addressbook-multiget xmlns:D="DAV:" xmlns:CR="urn:ietf:params:xml:ns:carddav"><D:prop><D:getetag/>'
+                     '<CR:address-data/></D:prop>%s</CR:addressbook-multiget>'),
+    "calendar-query": ('<?xml version="1.0"?><C:calendar-query xmlns:D="DAV:" xmlns:C="urn:ietf:params:xml:ns:caldav"><D:prop><D:getetag/>'
+                       '<C:calendar-data/></D:prop><C:filter><C:comp-filter name="VCALENDAR"/></C:filter></C:calendar-query>'),
+    "addressbook-query": ('<?xml version="1.0"?><CR:addressbook-query xmlns:D="DAV:" xmlns:CR="urn:ietf:params:xml:ns:carddav"><D:prop><D:getetag/>'
+                          '<CR:address-data/></D:prop></CR:addressbook-query>'),
+    "sync-collection": ('<?xml version="1.0"?><D:sync-collection xmlns:D="DAV:"><D:sync-token/><D:sync-level>1</D:sync-level><D:prop>'
+                        '<D:getetag/></D:prop></D:sync-collection>'),
+    "free-busy": ('<?xml version="1.0"?><C:free-busy-query xmlns:C="urn:ietf:params:xml:ns:caldav"><C:time-range start="20000101T000000Z" '
+                  'end="20400101T000000Z"/></C:free-busy-query>'),
+    "expand-property": '<?xml version="1.0"?><D:expand-property xmlns:D="DAV:"><D:property name="current-user-principal"/></D:expand-property>',
+}
+RAW_PROPFINDS = {
+    "allprop": '<?xml version="1.0"?><D:propfind xmlns:D="DAV:"><D:allprop/></D:propfind>',
+    "propname": '<?xml version="1.0"?><D:propfind xmlns:D="DAV:"><D:propname/></D:propfind>',
+    "many": ('<?xml version="1.0"?><D:propfind xmlns:D="DAV:" xmlns:C="urn:ietf:params:xml:ns:caldav" xmlns:CS="http://calendarserver.org/ns/" '
+             'xmlns:CR="urn:ietf:params:xml:ns:carddav"><D:prop><CS:getctag/><D:sync-token/><D:getcontentlength/><D:getcontenttype/><D:owner/>'
+             '<D:current-user-principal/><D:principal-URL/><D:supported-report-set/><C:supported-calendar-component-set/>'
+             '<C:calendar-home-set/><CR:addressbook-home-set/><D:displayname/><D:getetag/><D:resourcetype/></D:prop></D:propfind>'),
+}
+
+
+def raw_observers(login):
+    """Read-only requests of every kind the handler model does not cover, on every path of the universe: returns a function
+    srv -> list of (label, status, normalised headers, normalised body)."""
+    import re as _re
+
+    def norm(b):
+        t = b.decode("utf-8", "replace") if isinstance(b, bytes) else b
+        t = _re.sub(r"<(\w+:)?getlastmodified>[^<]*</(\w+:)?getlastmodified>", "<getlastmodified/>", t)
+        t = _re.sub(r"(?m)^DTSTAMP:.*$", "DTSTAMP:x", t)
+        # a refused free-busy REPORT answers with str(<Element>) as body -- the repr of an object, memory address included
+        # (observation recorded in DESIGN 10.2; not a C03 matter)
+        t = _re.sub(r" at 0x[0-9a-f]+>", " at 0x>", t)
+        # sync tokens hash per-change random history ETags (history.py: os.urandom): never equal across two servers
+        t = _re.sub(r"http://radicale\.org/ns/sync/[0-9a-f]{64}", "http://radicale.org/ns/sync/TOKEN", t)
+        return t
+
+    def f(srv):
+        out = []
+        paths = ["/"]
+        for u in (10, 11):
+            paths.append(xh.path_str((u,)))
+            for c in (20, 21, 22):
+                paths.append(xh.path_str((u, c)))
+                for i in (100, 101, 200, 201):
+                    paths.append(xh.path_str((u, c, i)))
+        for pth in paths:
+            is_item = pth.endswith((".ics", ".vcf"))
+            hrefs = "".join("<D:href>%s</D:href>" % h for h in paths if h.endswith((".ics", ".vcf")))[:4000]
+            for label, body in RAW_REPORTS.items():
+                if is_item and label not in ("multiget", "sync-collection"):
+                    continue
+                st, h, b = srv.request("REPORT", pth, data=(body % hrefs) if "%s" in body else body, login=login)
+                out.append((pth, "REPORT " + label, st, h.get("Content-Type"), norm(b)))
+            for label, body in RAW_PROPFINDS.items():
+                for depth in (("0",) if is_item else ("0", "1")):
+                    st, h, b = srv.request("PROPFIND", pth, data=body, login=login, HTTP_DEPTH=depth)
+                    out.append((pth, "PROPFIND %s depth %s" % (label, depth), st, h.get("Content-Type"), norm(b)))
+            for meth, extra in (("GET", {}), ("GET", dict(HTTP_ACCEPT_ENCODING="gzip")), ("HEAD", {}), ("OPTIONS", {})):
+                st, h, b = srv.request(meth, pth, login=login, **extra)
+                hh = tuple(sorted((k, v) for k, v in h.items() if k.lower() not in ("last-modified", "date")))
+                out.append((pth, meth + (" gzip" if extra else ""), st, hh, norm(b) if "gzip" not in str(h.get("Content-Encoding")) else len(b)))
+        return out
+    return f
+
+
 def two_store_differential(ctx, n):
     """3a. Two stores differing only inside dark subtrees; same requests; same responses; same visible evolution."""
     rng = ctx.rng
@@ -171,9 +241,13 @@ def two_store_differential(ctx, n):
         sa = setup_hist(0)
         sb = setup_hist(1)
         probes = [(ui, r) for (_, r) in xh.gen_history(rng, rng.randrange(6, 20), et)]
+        ulogin = (xh.USERS[ui] + ":") if xh.USERS[ui] else None
+        want_raw = done % 3 == 0            # every third pair also gets the raw observers (about 700 requests per store)
         ra = xh.Runner(et)
+        ra.after = raw_observers(ulogin) if want_raw else None
         outs_a = ra.run(world, probes, want_store=True, setup=(SETUP_POLS, sa))
         rb = xh.Runner(et)
+        rb.after = raw_observers(ulogin) if want_raw else None
         outs_b = rb.run(world, probes, want_store=True, setup=(SETUP_POLS, sb))
 
         def visible(dump):
@@ -187,6 +261,16 @@ def two_store_differential(ctx, n):
                               dict(world=x_hcheck.world_json(world), user=ui, dark_roots=ds, setup_a=sa, setup_b=sb, probes=probes[:k + 1],
                                    response_a=repr(a), response_b=repr(b)))
                 return
+        if want_raw:
+            ctx.count("two-store-raw-observer-requests", len(ra.after_out))
+            for x, y in zip(ra.after_out, rb.after_out):
+                if x != y:
+                    # a path inside a dark subtree may only ever be answered identically in both stores
+                    ctx.violation("two stores differing only in subtrees dark for user %r answer %s %s differently (%s vs %s)" % (
+                        xh.USERS[ui], x[1], x[0], x[2], y[2]),
+                        dict(world=x_hcheck.world_json(world), user=ui, dark_roots=ds, setup_a=sa, setup_b=sb, probes=probes,
+                             request=[x[0], x[1]], response_a=repr(x[2:])[:3000], response_b=repr(y[2:])[:3000]))
+                    return
     ctx.extra["two_store_pairs"] = done
 
 
